@@ -556,7 +556,7 @@ func init() {
 			"R17.6 HexInputToOCRA sets each of the five fields from hex.DecodeString of the same-position argument (a fresh slice each), every decode error is tested and returned. Not decided: numeric identity beyond these idioms and the RFC end-to-end equality (C05).",
 		trusted:  []string{"strconv.ParseUint, math/big.Int SetString/Text, encoding/hex.DecodeString"},
 		quick:    []Config{CfgNative},
-		thorough: []Config{CfgNative, Cfg386},
+		thorough: []Config{CfgNative, CfgWasm, Cfg386},
 		run:      runC17,
 	})
 }
